@@ -102,7 +102,8 @@ func h04Recipe() (WLRecipe, *CharRecipe, []string) {
 	var r WLRecipe
 	r.list = wl
 	r.Length = vLen("length", vParam("Lmin", 1), vParam("L", 3))
-	r.Capitalize = h04Schemes[vChoice("scheme", vParam("schemes", len(h04Schemes)))]
+	smin := vParam("schememin", 0)
+	r.Capitalize = h04Schemes[smin+vChoice("scheme", vParam("schemes", len(h04Schemes))-smin)]
 	sepKind := vChoice("separator", vParam("seps", h04NSep))
 	char, sf, rec := h04Separator(sepKind)
 	r.SeparatorChar = char
@@ -148,9 +149,18 @@ func H04() {
 	}
 
 	vSummary(true)
+	if vParam("coins", 0) == 1 && r.Capitalize == CSRandom {
+		// long coin sequences: the coins take one of three concrete vectors
+		// (all heads, all tails, alternating), except one coin at a word-size
+		// boundary position, which stays symbolic
+		free := []int{-1, 0, 31, 32, 63, 64, L - 1}[vChoice("free-coin", 7)]
+		vCoinScript(1+vChoice("coin-vector", 3), free)
+		vReach("scripted-coins")
+	}
 	var p *Password
 	var err error
 	panicked := vTry(func() { p, err = r.Generate() })
+	vCoinScript(0, -1)
 	vAssert(!panicked, "Generate panicked")
 	vAssert(err == nil && p != nil, "Generate failed for a non-empty list and a positive length")
 	vReach("returned")
